@@ -250,9 +250,20 @@ class C17(common.Prop):
         backend = "torch" if i % 3 != 2 else "tf"
         D = rng.choice([2, 3])
         ncomp = rng.randrange(1, 4)
-        flavour = rng.choice(["chain"] * 8 + ["nochain", "nolimbs", "oob", "nocomp"])
+        flavour = rng.choice(["chain"] * 8 + ["nochain", "nolimbs", "oob", "nocomp", "perm", "perm"])
         comps = []
-        if flavour != "nocomp":
+        if flavour == "perm":
+            # limb lists are in no particular order: the first (and the second) end points of the limbs are each a SHUFFLED run of
+            # consecutive point indexes - every limb, and every triple built from them, keeps its own position in the output
+            npts = rng.randrange(3, 7)
+            a, b = list(range(npts)), list(range(npts))
+            rng.shuffle(a)
+            rng.shuffle(b)
+            k = rng.randrange(2, npts + 1)
+            comps.append([npts, D, [[x, y] for x, y in zip(a[:k], b[:k])]])
+            if rng.random() < 0.4:
+                comps.append([rng.randrange(1, 4), D, []])
+        elif flavour != "nocomp":
             for ci in range(ncomp):
                 npts = rng.randrange(1, 6)
                 nfmt = D if rng.random() < 0.85 else rng.choice([D + 1, max(1, D - 1)])
